@@ -24,6 +24,11 @@ func (e *kvElection) watchLoop(ctx context.Context) {
 	}()
 
 	for {
+		// Stopped: issue no further store operations (a select below may pick the
+		// ticker or an update although ctx is done as well).
+		if ctx.Err() != nil {
+			return
+		}
 		if watcher == nil {
 			w, err := e.kv.Watch(e.key)
 			if err != nil {
@@ -85,7 +90,7 @@ func (e *kvElection) watchLoop(ctx context.Context) {
 // checkKeyAndReelect checks if the key exists and triggers re-election if it doesn't.
 // This is a fallback for cases where NATS watchers don't reliably send deletion events.
 func (e *kvElection) checkKeyAndReelect(ctx context.Context) {
-	if e.IsLeader() {
+	if ctx.Err() != nil || e.IsLeader() {
 		return
 	}
 
